@@ -1,10 +1,10 @@
 package simrt
 
 import (
-	"time"
 	"github.com/go-kid/ioc/component_definition"
 	"github.com/go-kid/ioc/container"
 	"github.com/go-kid/ioc/container/processors"
+	"time"
 )
 
 // CfgAB is the struct type of "prefixStruct" configuration fields.
